@@ -40,6 +40,7 @@ type Node struct {
 
 // Model is the extracted tree.
 type Model struct {
+	files    []*ast.File
 	Type     *types.Named // the MIME struct
 	Ctor     *types.Func  // newMIME
 	AliasM   *types.Func  // (*MIME).alias
@@ -177,6 +178,7 @@ func extract(c *core.Ctx) *Model {
 	}
 
 	// Package-level *T variables.
+	m.files = pkg.Syntax
 	for _, file := range pkg.Syntax {
 		for _, d := range file.Decls {
 			gd, ok := d.(*ast.GenDecl)
@@ -211,7 +213,14 @@ func extract(c *core.Ctx) *Model {
 		if n.Call == nil {
 			continue // literal node: no children
 		}
-		for i, arg := range n.Call.Args[3:] {
+		childArgs := n.Call.Args[3:]
+		// children handed over as list()... : a parameterless package function whose body is `return []*T{a, b, ...}`
+		if n.Call.Ellipsis.IsValid() && len(childArgs) == 1 {
+			if lst := listFuncElems(pkg.Syntax, info, childArgs[0]); lst != nil {
+				childArgs = lst
+			}
+		}
+		for i, arg := range childArgs {
 			id, ok := ast.Unparen(arg).(*ast.Ident)
 			var ch *Node
 			if ok {
@@ -306,7 +315,7 @@ func (m *Model) parseInit(c *core.Ctx, info *types.Info, obj *types.Var, e ast.E
 		}
 	}
 	id, ok := call.Fun.(*ast.Ident)
-	if !ok || info.Uses[id] != m.Ctor || len(call.Args) < 3 || call.Ellipsis.IsValid() {
+	if !ok || info.Uses[id] != m.Ctor || len(call.Args) < 3 || (call.Ellipsis.IsValid() && !(len(call.Args) == 4 && listFuncElems(m.files, info, call.Args[3]) != nil)) {
 		return nil
 	}
 	n.Call = call
@@ -735,4 +744,48 @@ func ConstByteSlices(v ssa.Value) ([][]byte, bool) {
 		}
 	}
 	return out, true
+}
+
+// listFuncElems: e is a call f() of a package-level function without
+// parameters whose body is the single statement `return []*T{...}`; the
+// elements of that literal.
+func listFuncElems(files []*ast.File, info *types.Info, e ast.Expr) []ast.Expr {
+	call, ok := ast.Unparen(e).(*ast.CallExpr)
+	if !ok || len(call.Args) != 0 {
+		return nil
+	}
+	id, ok := ast.Unparen(call.Fun).(*ast.Ident)
+	if !ok {
+		return nil
+	}
+	fn, ok := info.Uses[id].(*types.Func)
+	if !ok {
+		return nil
+	}
+	for _, file := range files {
+		for _, d := range file.Decls {
+			fd, ok := d.(*ast.FuncDecl)
+			if !ok || fd.Recv != nil || info.Defs[fd.Name] != types.Object(fn) || fd.Body == nil || len(fd.Body.List) != 1 {
+				continue
+			}
+			ret, ok := fd.Body.List[0].(*ast.ReturnStmt)
+			if !ok || len(ret.Results) != 1 {
+				return nil
+			}
+			lit, ok := ast.Unparen(ret.Results[0]).(*ast.CompositeLit)
+			if !ok {
+				return nil
+			}
+			if _, isSlice := info.TypeOf(lit).Underlying().(*types.Slice); !isSlice {
+				return nil
+			}
+			for _, el := range lit.Elts {
+				if _, kv := el.(*ast.KeyValueExpr); kv {
+					return nil
+				}
+			}
+			return lit.Elts
+		}
+	}
+	return nil
 }
